@@ -12,7 +12,7 @@ PID = "C08"
 MODULE = "Check.C08"
 VERDICT = "verdict_C08"
 CLASS_BITS = {16: "K_order_sensitive_import", 32: "K_multi_provider"}
-NCASES = (60, 2000)
+NCASES = (160, 2000)
 RULE = ("generators W, W-chains and G; the same file set is analysed by two real databases in two independent random "
         "orders (all permutations for <= 4 files in the thorough tier); compared: go-to-definition at every usage, direct "
         "resolution per (test module, name), available fixtures, imported names, references (as sets), cycle reports, "
